@@ -80,7 +80,7 @@ def gen_service(ch: Any, *, n_methods: int | None = None, names: list[str] | Non
     return build_service(methods, version=version, uid=uid)
 
 
-def build_service(methods: list[MethodSpec], version: str | None = None, uid: str = "") -> Service:
+def build_service(methods: list[MethodSpec], version: str | None = None, uid: str = "", ns_extra: dict[str, Any] | None = None) -> Service:
     proto_lines = [f"class Svc{uid}(Protocol):"]
     impl_lines = [f"class Impl{uid}:"]
     if version is not None:
@@ -104,6 +104,8 @@ def build_service(methods: list[MethodSpec], version: str | None = None, uid: st
     src = "\n".join(proto_lines) + "\n\n" + "\n".join(impl_lines) + "\n"
     ns = dict(rt.GEN_NS)
     ns.update({"Protocol": Protocol, "ClassVar": ClassVar})
+    if ns_extra:
+        ns.update(ns_extra)
     exec(compile(src, f"<gen-service{uid}>", "exec"), ns)  # noqa: S102
     return Service(methods=methods, protocol=ns[f"Svc{uid}"], impl_cls=ns[f"Impl{uid}"], source=src, version=version)
 
@@ -124,7 +126,7 @@ class Call:
     inputs: list[tuple] = field(default_factory=list)  # exchange inputs: (kind, v, w); kind in ok|nulls|multi
     in_schema: str = "ok"  # ok | reorder | widen | badset  (one input schema per stream)
     cb_raise_at: int | None = None  # client log callback raises on its i-th invocation within this call
-    reject: str | None = None  # None | unknown | version | badparam  (client-side pre-dispatch rejection)
+    reject: str | None = None  # None | unknown | version | badparam | badvalue  (pre-dispatch rejection)
     label: str = ""
 
     def describe(self) -> dict[str, Any]:
